@@ -853,6 +853,10 @@ func asWorldGen(r *Run, rng *Rng, w *asWorld, steps int) {
 		if ct == "" || openCert() != nil {
 			return
 		}
+		// from here on the L1 node's finalized pointer runs AHEAD of the L1 info syncer (block l1+1 is final but not yet synced):
+		// the certificate built now is proven against what the syncer has; once the syncer has caught up — the finalized pointer
+		// not having moved — the next certificate has to see the new leaves
+		do(fmt.Sprintf("fin %d", l1+1))
 		l2++
 		do(fmt.Sprintf("l2blk %d %s", l2, ct))
 		do("epoch~") // first with the L1 info tree's nodes unreadable: the claim's proof cannot be computed, nothing may be sent
@@ -864,8 +868,7 @@ func asWorldGen(r *Run, rng *Rng, w *asWorld, steps int) {
 		r.Count("branch:directed-claims-only-certificate")
 		// while it is undecided the L1 info tree grows, the new leaves become final and a claim against the newest one arrives
 		l1++
-		do(fmt.Sprintf("l1blk %d 2", l1))
-		do(fmt.Sprintf("fin %d", l1))
+		do(fmt.Sprintf("l1blk %d 2", l1)) // the syncer catches up with the (unchanged) finalized block
 		finLeaves = len(w.l1Leaves)
 		if ct2 := w.claimTokLeaf(rng, finLeaves-1); ct2 != "" {
 			l2++
